@@ -6,6 +6,8 @@ from harness import circgen as cg, logicsim_corr as lc, oracle_net as on, simche
 THEOREMS = ['C16_trace', 'C16_identity', 'C16_upstream', 'C16_override', 'C16_cb_paths_equal_plain',
             'C16_model_callback_correct', 'C16_model_callback_override', 'C16_model_identity', 'C16_model_trace', 'C16_sim_case8_cb_correct']
 
+THEOREMS += ['C16_callback_loop_structure', 'C16_callback_loop_source_is_model']
+
 
 def to_bp_row(logic, codes, mdim):
     return logic.mv_to_bp(np.asarray(codes, dtype=np.uint8)[np.newaxis, :])[0, :mdim]
@@ -146,9 +148,12 @@ def const_circuit(rng):
 def run(ck):
     import random
     ok_t = sk.regen_tables(ck)
+    from harness import lsim_drivers_corr as ld
+    ok_drv = ld.translate_drivers(ck)   # evaluation loops incl. the callback statement (Gen/LogicSimDriversSrc.v)
     ck.prove('C16', THEOREMS)
     if ok_t:
         sk.validate_dispatch(ck, ['disp2_cb', 'disp4_cb', 'disp8_cb'])
+    drv_fails = ld.run(ck, random.Random(ck.seed * 7919 + 1603), ck.scale(36, 300)) if ok_drv else []
     rng = random.Random(ck.seed * 7919 + 16)
     nrng = np.random.default_rng(ck.seed + 16)
     ncirc = ck.scale(45, 900)
@@ -209,6 +214,9 @@ def run(ck):
     ck.trust('modelled, not verified: the callback protocol of LogicSim.c_prop (Model/LogicSimModel.v prop1_cb; correspondence); proved about '
              'that model (Proofs/LogicSimGlue.v): c_prop_cb on the SimOps memory map refines exec_ops_cb of Model/OpSem.v, so C16_trace / '
              '_identity / _upstream / _override hold for the compared entry point sim_case8_cb (C16_sim_case8_cb_correct)')
+    if not fails:
+        for key, what, rp in drv_fails[:3]:
+            ck.fail(key, what, rp, found_input=False)
     for desc, what in fails[:5]:
         ck.fail(f'inject_cb:m={desc["m"]}', f'LogicSim(m={desc["m"]}).c_prop(inject_cb): ' + what,
                 {'component': 'logic_sim.LogicSim.c_prop(inject_cb)', 'input': desc, 'actual': what})
